@@ -440,8 +440,10 @@ func declaredInputsRule(c *Ctx, r *Report, rule string, pick func(ai accessorInp
 		}
 		if equalStrs(ai.atoms, sp.Atoms) {
 			r.ok(rule, name, c.fnPos(ai.fn), "reads exactly the declared inputs "+strings.Join(sp.Atoms, ", "))
-		} else if by, ok := decidedByTable[name]; ok && len(subsetStrs(sp.Atoms, ai.atoms)) == 0 {
-			r.ok(rule, name, c.fnPos(ai.fn), fmt.Sprintf("reads %v beyond the declared inputs %v; the accessor is decided as a complete decision table by %s, which varies those inputs too", subsetStrs(ai.atoms, sp.Atoms), sp.Atoms, by))
+		} else if by, ok := decidedByTable[name]; ok {
+			r.ok(rule, name, c.fnPos(ai.fn), fmt.Sprintf("reads %v, the declared inputs are %v; the accessor is decided as a complete decision table by %s whatever it reads (the table states the value for every combination of the defining inputs)", ai.atoms, sp.Atoms, by))
+		} else if why, ok := toleratedByParts(c, spec, ai, sp.Atoms); ok {
+			r.ok(rule, name, c.fnPos(ai.fn), fmt.Sprintf("reads %v, the declared inputs are %v; the difference is that of %s", ai.atoms, sp.Atoms, why))
 		} else {
 			r.bad(rule, name, c.fnPos(ai.fn), fmt.Sprintf("reads %v but its declared defining inputs are %v (extra: %v, missing: %v): the attribute is not a function of its defining inputs alone, or ignores one of them",
 				ai.atoms, sp.Atoms, subsetStrs(ai.atoms, sp.Atoms), subsetStrs(sp.Atoms, ai.atoms)))
@@ -476,4 +478,50 @@ func expandKeyAlternatives(p string) []string {
 		i = i + j + k
 	}
 	return []string{p}
+}
+
+// toleratedByParts: a composite accessor (a full description that includes other accessors) whose reads
+// differ from the declared ones exactly by what table-decided accessors it calls read differently.
+func toleratedByParts(c *Ctx, spec map[string]inputSpec, ai accessorInputs, declared []string) (string, bool) {
+	missing, extra := subsetStrs(declared, ai.atoms), subsetStrs(ai.atoms, declared)
+	tolMissing, tolExtra := map[string]bool{}, map[string]bool{}
+	var parts []string
+	calls := c.eff.Of(ai.fn).Calls
+	for _, other := range c.accessorInputs() {
+		on := fname(other.fn)
+		by, decided := decidedByTable[on]
+		if _, called := calls[on]; !decided || !called || other.sect != nil {
+			continue
+		}
+		osp, listed := spec[on]
+		if !listed {
+			continue
+		}
+		dm, de := subsetStrs(osp.Atoms, other.atoms), subsetStrs(other.atoms, osp.Atoms)
+		if len(dm)+len(de) == 0 {
+			continue
+		}
+		for _, a := range dm {
+			tolMissing[a] = true
+		}
+		for _, a := range de {
+			tolExtra[a] = true
+		}
+		parts = append(parts, on+" (decided by "+by+")")
+	}
+	if len(parts) == 0 {
+		return "", false
+	}
+	for _, a := range missing {
+		if !tolMissing[a] {
+			return "", false
+		}
+	}
+	for _, a := range extra {
+		if !tolExtra[a] {
+			return "", false
+		}
+	}
+	sort.Strings(parts)
+	return strings.Join(parts, ", "), true
 }
